@@ -17,6 +17,7 @@ QUICK = [
     ("gen-glob", {"nfiles": 12, "ndirs": 2, "bs": 4096, "hostile": True, "nohl": True}, 6),
     ("gen-glob", {"nfiles": 8, "ndirs": 3, "bs": 4096, "hardlinks": True, "nohl": True}, 10),
     ("gen-glob", {"nfiles": 8, "ndirs": 3, "bs": 4096}, 10),
+    ("gen-packdir", {"nfiles": 10, "ndirs": 5, "bs": 4096, "nohl": True, "xdev": True}, 16),
     ("gen-glob-partial", {"nfiles": 10, "ndirs": 6, "bs": 4096, "nohl": True}, 24),
     ("gen-glob-partial", {"nfiles": 14, "ndirs": 9, "bs": 4096, "specials": True, "nohl": True}, 12),
 ]
@@ -28,6 +29,13 @@ def build(bdir, seed, kind, prof, cd):
         case = pipelines.build_case(bdir, seed, "gen-packdir", prof, cd)
         if prof.get("nohl"):
             case.argv = case.argv[:-1] + ["-H", case.argv[-1]]
+        if prof.get("xdev"):
+            # --one-file-system over a tree with a (simulated) mount point: one directory and everything below it report another
+            # device number (simos `fakedev`); which entries survive must not depend on the order readdir returns them in
+            dirs = sorted(e.path for e in case.ents if e.type == treegen.DIR and b"/" not in e.path and re.match(rb"^[A-Za-z0-9_.,+=-]+$", e.path))
+            if dirs:
+                case.fakedev = os.fsdecode(rng(seed, "xdev").choice(dirs))
+                case.argv = case.argv[:-1] + ["-o", case.argv[-1]]
         return case
     # glob lines of a pack file over a real directory
     case = pipelines.build_case(bdir, seed, "gen-packdir", prof, cd)
@@ -70,8 +78,9 @@ def build(bdir, seed, kind, prof, cd):
     return case
 
 
-def plan_for(perm):
-    return "seed 1\nsched rr\nreaddir %d\n" % perm
+def plan_for(perm, case=None):
+    extra = "fakedev %s 4242\n" % case.fakedev if getattr(case, "fakedev", None) else ""
+    return "seed 1\nsched rr\nreaddir %d\n" % perm + extra
 
 
 def perms(seed):
@@ -93,7 +102,7 @@ def work(a):
             res["case"] = dict(case.describe(), realkind=kind)
             seen = {}
             for p in perms(caseseed):
-                o = pipelines.run_case(bdir, case, cd, plan_for(p))
+                o = pipelines.run_case(bdir, case, cd, plan_for(p, case))
                 res["runs"] += 1
                 for l in o.trace.lines:
                     m = re.match(r"N readdir_dirs \* (\d+) permuted (\d+)", l)
@@ -120,8 +129,8 @@ def rerun(bdir, casespec, pa, pb, force_nohl=False):
         if force_nohl:
             prof["nohl"] = True
         case = build(bdir, casespec["seed"], casespec["kind"], prof, cd)
-        a = pipelines.run_case(bdir, case, cd, plan_for(pa), keep_image=os.path.join(s, "a.sqfs"))
-        b = pipelines.run_case(bdir, case, cd, plan_for(pb))
+        a = pipelines.run_case(bdir, case, cd, plan_for(pa, case), keep_image=os.path.join(s, "a.sqfs"))
+        b = pipelines.run_case(bdir, case, cd, plan_for(pb, case))
         return (a.verdict, a.hashes.get("image")) != (b.verdict, b.hashes.get("image")), a, b
 
 
